@@ -148,6 +148,103 @@ DELIMS = {
 }
 
 
+
+def regex_to_lean(pattern, flags):
+    """Python regex -> Lean term of type Lessm.Rx.Re (only the constructs the matcher models; anything else raises)"""
+    import re
+    try:
+        import re._parser as sp
+        import re._constants as sc
+    except ImportError:                      # Python < 3.11
+        import sre_parse as sp
+        import sre_constants as sc
+    tree = sp.parse(pattern, flags)
+
+    def ch(n):
+        return '(Char.ofNat %d)' % n
+
+    def cat(av, neg_ok=True):
+        m = {sc.CATEGORY_DIGIT: '.digit', sc.CATEGORY_SPACE: '.space', sc.CATEGORY_WORD: '.word',
+             sc.CATEGORY_NOT_DIGIT: '.notDigit', sc.CATEGORY_NOT_SPACE: '.notSpace', sc.CATEGORY_NOT_WORD: '.notWord'}
+        if av not in m:
+            raise ValueError('regex category %r is not modelled' % (av,))
+        return m[av]
+
+    def seq(items):
+        items = [conv(op, av) for op, av in items]
+        if not items:
+            return '.eps'
+        out = items[-1]
+        for it in reversed(items[:-1]):
+            out = '(.seq %s %s)' % (it, out)
+        return out
+
+    def conv(op, av):
+        if op is sc.LITERAL:
+            return '(.ch %s)' % ch(av)
+        if op is sc.NOT_LITERAL:
+            return '(.notCh %s)' % ch(av)
+        if op is sc.ANY:
+            return '.any'
+        if op is sc.IN:
+            neg = False
+            its = []
+            for o, a in av:
+                if o is sc.NEGATE:
+                    neg = True
+                elif o is sc.LITERAL:
+                    its.append('.lit %s' % ch(a))
+                elif o is sc.RANGE:
+                    its.append('.range %s %s' % (ch(a[0]), ch(a[1])))
+                elif o is sc.CATEGORY:
+                    its.append(cat(a))
+                else:
+                    raise ValueError('regex set item %r is not modelled' % (o,))
+            return '(.cls %s [%s])' % ('true' if neg else 'false', ', '.join(its))
+        if op is sc.BRANCH:
+            alts = [seq(list(b)) for b in av[1]]
+            out = alts[-1]
+            for a in reversed(alts[:-1]):
+                out = '(.alt %s %s)' % (a, out)
+            return out
+        if op is sc.SUBPATTERN:
+            if av[1] or av[2]:
+                raise ValueError('inline flags are not modelled')
+            return seq(list(av[3]))
+        if op in (sc.MAX_REPEAT, sc.MIN_REPEAT):
+            lo, hi, body = av
+            return '(.rep %d %s %s %s)' % (lo, 'none' if hi == sc.MAXREPEAT else '(some %d)' % hi,
+                                            'true' if op is sc.MAX_REPEAT else 'false', seq(list(body)))
+        raise ValueError('regex construct %r is not modelled' % (op,))
+    return seq(list(tree))
+
+
+def lex_rules(lexobj):
+    """per state: the rules in ply's matching order as (function name, token type, regex source)"""
+    out = []
+    for state in lexobj.lexstateinfo:
+        # lexstatere[state] lists the state's own master regexes first, then (inclusive) those of INITIAL
+        own = lexobj.lexstatere[state]
+        if state != 'INITIAL':
+            own = own[:len(own) - len(lexobj.lexstatere['INITIAL'])]
+        rules = []
+        for lexre, names in own:
+            idx = {v: k for k, v in lexre.groupindex.items()}
+            for i, ent in enumerate(names):
+                if not ent or i not in idx:
+                    continue
+                fn, ttype = ent
+                gname = idx[i]
+                # the rule's own regex: the docstring of the function or the string rule
+                src = None
+                if fn is not None:
+                    import ply.lex
+                    src = ply.lex._get_regex(fn)
+                rules.append((gname, ttype or '', src))
+        out.append((state, rules))
+    return out
+
+
 def main():
     cap = capture()
     parser = cap['parser']
@@ -250,12 +347,35 @@ def main():
     big = []
     big.append('/- GENERATED by harness/extract.py. Large word lists (executed only). -/')
     big.append('namespace Lessm.Gen')
-    big.append('def cssPropertiesEnc : String := %s' % lean_str(' '.join(props)))
-    big.append('def domElementsEnc : String := %s' % lean_str(' '.join(elems)))
+    big.append('def cssPropertiesEnc : String := %s' % lean_str('\n'.join(props)))
+    big.append('def domElementsEnc : String := %s' % lean_str('\n'.join(elems)))
     big.append('end Lessm.Gen')
     ch4 = write_if_changed(os.path.join(GEN, 'BigWords.lean'), '\n'.join(big) + '\n')
-    print('extract: %d productions, %d terminals, %d nonterminals, %d states; changed=%s' % (
-        len(prods), len(terms), len(nts), len(parser.action), [ch1, ch2, ch3, ch4]))
+    # lexer rules: regular expressions in ply's matching order, per state
+    import re
+    lexobj = cap['lexer']
+    lr = []
+    lr.append('/- GENERATED by harness/extract.py from the lexer object of the source tree: rules per state in ply\'s matching order. -/')
+    lr.append('import Lessm.Model.Lex0')
+    lr.append('namespace Lessm.Gen')
+    lr.append('open Lessm.Rx Lessm.Lex0')
+    nrules = 0
+    stnames = []
+    for state, rules in lex_rules(lexobj):
+        stnames.append(state)
+        ents = []
+        for gname, ttype, src in rules:
+            if src is None:
+                raise SystemExit('extract: rule %s has no regular expression' % gname)
+            ents.append('  ⟨%s, %s, %s⟩' % (lean_str(gname), lean_str(ttype), regex_to_lean(src, re.IGNORECASE | re.UNICODE)))
+            nrules += 1
+        lr.append('def lexRules_%s : List Rule := [\n%s\n]' % (state, ',\n'.join(ents)))
+    lr.append('def lexRules : List (String × List Rule) := [%s]' % ', '.join('(%s, lexRules_%s)' % (lean_str(st), st) for st in stnames))
+    lr.append('def lexReflags : Nat := %d' % int(lexobj.lexreflags))
+    lr.append('end Lessm.Gen')
+    ch5 = write_if_changed(os.path.join(GEN, 'LexRules.lean'), '\n'.join(lr) + '\n')
+    print('extract: %d productions, %d terminals, %d nonterminals, %d states, %d lexer rules; changed=%s' % (
+        len(prods), len(terms), len(nts), len(parser.action), nrules, [ch1, ch2, ch3, ch4, ch5]))
 
 
 if __name__ == '__main__':
